@@ -201,6 +201,11 @@ class MayRaise:
                 verdict = (why or "path condition bounds the length") if ok_all else None
                 if base[0] == "gval" or (is_const(base) and isinstance(base[1], (tuple, list, dict))):
                     verdict = None
+            seq = base[1] if is_const(base) else (base[1].v if base[0] == "gval" else None)
+            if isinstance(seq, (tuple, list, str, bytes)) and not is_const(idx):
+                r = _nonneg_upper(idx)
+                if r is not None and r < len(seq):
+                    verdict = f"index masked to 0..{r}, constant sequence of {len(seq)} entries"
             if base[0] == "gval" and isinstance(base[1].v, dict) and is_const(idx):
                 verdict = "constant key present in the table" if idx[1] in base[1].v else None
             per_node.setdefault(id(node), []).append((verdict, node))
@@ -352,6 +357,47 @@ class MayRaise:
                 return ok and any_pkg
         return False
 
+    def _only_mappings(self, name: str) -> bool:
+        """every binding of `name` visible here (in the function if it binds it, else at module level) is a dict display, dict
+        comprehension or dict(...) call, and the name is never rebound by augmented assignment / for / with / import"""
+        scope = self._f.node
+        binds = self._bindings(scope, name)
+        if binds is None:
+            return False
+        if not binds and name not in self._f.params:
+            scope = self.repo.modules[self._f.module].tree
+            binds = self._bindings(scope, name, module=True)
+        if not binds:
+            return False
+        return all(isinstance(v, (ast.Dict, ast.DictComp)) or (isinstance(v, ast.Call) and isinstance(v.func, ast.Name) and v.func.id in ("dict", "OrderedDict", "defaultdict")) for v in binds)
+
+    @staticmethod
+    def _bindings(scope, name, module=False):
+        """values assigned to the plain name in the scope; None if it is bound some other way"""
+        vals = []
+        nodes = scope.body if module else list(walk_no_nested(scope))
+        if module:
+            nodes = [n for st in scope.body for n in ([st] if not isinstance(st, (ast.FunctionDef, ast.AsyncFunctionDef, ast.ClassDef)) else [])]
+            nodes = [x for n in nodes for x in ast.walk(n)]
+        for n in nodes:
+            if isinstance(n, ast.Assign):
+                for tg in n.targets:
+                    if isinstance(tg, ast.Name) and tg.id == name:
+                        vals.append(n.value)
+                    elif any(isinstance(x, ast.Name) and x.id == name and isinstance(x.ctx, ast.Store) for x in ast.walk(tg)) and not isinstance(tg, ast.Subscript):
+                        return None
+            elif isinstance(n, ast.AnnAssign) and isinstance(n.target, ast.Name) and n.target.id == name and n.value is not None:
+                vals.append(n.value)
+            elif isinstance(n, (ast.AugAssign, ast.For, ast.With, ast.NamedExpr, ast.Import, ast.ImportFrom, ast.Global, ast.Nonlocal)):
+                for x in ast.walk(n.target if isinstance(n, (ast.AugAssign, ast.For, ast.NamedExpr)) else n):
+                    if isinstance(x, ast.Name) and x.id == name and isinstance(x.ctx, ast.Store):
+                        return None
+                    if isinstance(x, ast.alias) and (x.asname or x.name) == name:
+                        return None
+                if isinstance(n, (ast.Global, ast.Nonlocal)) and name in n.names:
+                    return None
+        return vals
+
     def _target(self, t) -> set[Raise]:
         out = set()
         if isinstance(t, ast.Subscript):
@@ -360,7 +406,7 @@ class MayRaise:
                 out |= self._expr(t.slice)
                 # an item store raises IndexError only on a sequence; containers held in instance fields are mappings here
                 # (dict displays / dict()), so only stores into local / parameter sequences are counted
-                if isinstance(t.value, ast.Name):
+                if isinstance(t.value, ast.Name) and not self._only_mappings(t.value.id):
                     out.add(self._mk("IndexError", t, f"item store {norm(t)[:50]}"))
         elif isinstance(t, ast.Attribute):
             out |= self._expr(t.value)
@@ -515,4 +561,16 @@ def _len_bound_literal(c, pol, want_upper: bool):
         return x, k
     if op == "!=" and k == 0:
         return x, 1
+    return None
+
+
+def _nonneg_upper(t):
+    """u such that 0 <= t <= u for every integer value of the operands, or None: `x & c` and `x % c` with a constant c."""
+    if is_const(t) and isinstance(t[1], int) and not isinstance(t[1], bool) and t[1] >= 0:
+        return t[1]
+    if t[0] == "bin" and t[1] == "&":
+        cands = [u for u in (_nonneg_upper(t[2]) if is_const(t[2]) else None, _nonneg_upper(t[3]) if is_const(t[3]) else None) if u is not None]
+        return min(cands) if cands else None
+    if t[0] == "bin" and t[1] == "%" and is_const(t[3]) and isinstance(t[3][1], int) and not isinstance(t[3][1], bool) and t[3][1] > 0:
+        return t[3][1] - 1
     return None
